@@ -782,8 +782,17 @@ pub(crate) fn parse_year_month(source: &str) -> TemporalResult<IxdtfParseRecord>
 #[inline]
 pub(crate) fn parse_month_day(source: &str) -> TemporalResult<IxdtfParseRecord> {
     let md_record = parse_ixdtf(source, ParseVariant::MonthDay);
-    // Error needs to be a RangeError
-    md_record.map_err(|e| TemporalError::range().with_message(format!("{e}")))
+
+    if md_record.is_ok() {
+        return md_record;
+    }
+
+    // A date or date-time string without a UTC designator is a month-day string as well.
+    match parse_date_time(source) {
+        Ok(dt) => Ok(dt),
+        // Error needs to be a RangeError: return the error from parsing MonthDay.
+        _ => md_record.map_err(|e| TemporalError::range().with_message(format!("{e}"))),
+    }
 }
 
 #[inline]
